@@ -1,6 +1,7 @@
 import sys
 area = sys.argv[1]
 wt = sys.argv[2]
+round2 = len(sys.argv) > 3 and sys.argv[3] == 'round2'
 AREAS = {
  'A1': 'include/eventpp/callbacklist.h',
  'A2': 'include/eventpp/eventdispatcher.h and include/eventpp/utilities/eventutil.h',
@@ -13,9 +14,23 @@ AREAS = {
  'A9': 'include/eventpp/mixins/mixinfilter.h, mixinheterfilter.h, include/eventpp/utilities/orderedqueuelist.h, conditionalfunctor.h and argumentadapter.h',
  'A10': 'include/eventpp/eventpolicies.h, include/eventpp/internal/eventpolicies_i.h and include/eventpp/internal/typeutil_i.h',
 }
+extra = ''
+if round2:
+    extra = ('An earlier study already collected: guard clauses / inverted conditions, a local variable holding a test result, lambda -> named functor, '
+             'range-for -> iterator loop, lock_guard -> unique_lock, one small private helper extracted, it++ inside a call, tag dispatch for an enable_if pair, '
+             'renamed locals. Do NOT repeat those; look for OTHER behaviour-preserving rewrites, for example: splitting one function into two or three helpers that '
+             'call each other, or inlining an existing private helper into its callers; passing state through a small struct or std::pair/std::tuple/std::tie; '
+             'replacing an if/else chain by a conditional expression or a switch, or a loop by a standard algorithm (std::for_each, std::find_if, std::any_of) with a '
+             'lambda, or the reverse; do-while or for(;;)-with-break instead of while; hoisting a common sub-expression, or duplicating it into both branches; using a '
+             'reference or pointer alias to a member (auto & list = queueList;), or this-> qualification; replacing std::lock_guard scopes by one std::unique_lock with '
+             'explicit unlock()/lock() at the same points; std::addressof / std::ref where equivalent; typedef / using aliases for member types; turning a member function '
+             'into a static or free helper taking the object explicitly; adding const, noexcept(false), explicit template arguments, or redundant parentheses and casts '
+             'that do not change the selected overload; de Morgan rewrites; swapping the operands of == and !=; replacing ! x.empty() by x.size() != 0 only where the '
+             'container provides size() for every policy. ')
+
 print(f'''You are given a scratch git worktree of the header-only C++11 library wqking/eventpp at {wt} (work ONLY inside that directory; never touch /repo or /verif, never read /verif). The library headers are in {wt}/include/eventpp, its unit tests (Catch) in {wt}/tests/unittest, its documentation in {wt}/doc.
 
-Your task: produce FOUR different BEHAVIOUR-PRESERVING refactorings of the library code in {AREAS[area]} - the kind of edit a careful maintainer makes while tidying up: restructuring control flow (early returns, inverted conditions, merged or split conditionals), introducing or inlining a local variable or a small private helper function, replacing a range-for by an iterator loop or the other way round, using an equivalent standard-library call (emplace_back for push_back, std::unique_lock for std::lock_guard, a while loop around a plain condition-variable wait instead of the predicate overload, std::swap vs member swap ...), renaming locals, reordering independent statements, replacing a lambda by a named functor, writing a comparison the other way round, etc. Each refactoring must leave the observable behaviour of the library EXACTLY as it is for every input, every interleaving of threads and every exception path (same locks held over the same operations, same order of side effects on shared state, same exception safety, same results) - we use these to check that an analysis tool does not raise false alarms, so a refactoring that subtly changes behaviour is worse than useless. Prefer edits that change the *shape* of the code substantially (not just whitespace or comments) while being provably equivalent; make the four of different kinds and in different functions. Touch only library headers; keep it C++11.
+Your task: produce FOUR different BEHAVIOUR-PRESERVING refactorings of the library code in {AREAS[area]} - the kind of edit a careful maintainer makes while tidying up: restructuring control flow (early returns, inverted conditions, merged or split conditionals), introducing or inlining a local variable or a small private helper function, replacing a range-for by an iterator loop or the other way round, using an equivalent standard-library call (emplace_back for push_back, std::unique_lock for std::lock_guard, a while loop around a plain condition-variable wait instead of the predicate overload, std::swap vs member swap ...), renaming locals, reordering independent statements, replacing a lambda by a named functor, writing a comparison the other way round, etc. Each refactoring must leave the observable behaviour of the library EXACTLY as it is for every input, every interleaving of threads and every exception path (same locks held over the same operations, same order of side effects on shared state, same exception safety, same results) - we use these to check that an analysis tool does not raise false alarms, so a refactoring that subtly changes behaviour is worse than useless. {extra}Prefer edits that change the *shape* of the code substantially (not just whitespace or comments) while being provably equivalent; make the four of different kinds and in different functions. Touch only library headers; keep it C++11.
 
 For each refactoring i in (1,2,3,4):
  1. Start from a clean tree (git -C {wt} checkout -- . ).
